@@ -15,6 +15,7 @@
 #define MAXT 16
 enum { ST_NONE=0, ST_RUN, ST_BLOCKED, ST_DONE, ST_WAITQ };
 struct th { int state; int turn; /* futex word: 1 => may run */ int *waddr; int64_t deadline_ns; int timed; int woken; int timedout; int prio; };
+int sched_trace=0; unsigned *sched_trace_word;
 static struct th T[MAXT]; static int NT; static __thread int me=-1; static int cur=-1;
 static uint64_t rng; static uint64_t steps, switches, sched_hash=1469598103934665603ull; static int64_t vclock_ns=1000000000ll*1000; 
 static int switch_ppm=300000, fire_ppm=20000; static uint64_t step_budget=2000000; static int active=0; int sched_quiet=0;
@@ -31,7 +32,7 @@ static int pick(void){ int en[MAXT], n=0; for(int i=0;i<NT;i++) if(T[i].state==S
   if(n==0){ for(int i=0;i<NT;i++) if(T[i].state==ST_WAITQ){ T[i].state=ST_RUN; return i; } return -1; }
   if(me>=0 && T[me].state==ST_RUN && nx()%1000000 >= (uint64_t)switch_ppm) return me;
   return en[nx()%n]; }
-static void handoff(void){ int nxt=pick(); if(nxt<0){ int alldone=1; for(int i=0;i<NT;i++) if(T[i].state!=ST_DONE) alldone=0; if(alldone) return; if(!sched_quiet) sched_dump("DEADLOCK"); fflush(stderr); _exit(42);} 
+static void handoff(void){ int nxt=pick(); if(nxt<0){ int alldone=1; for(int i=0;i<NT;i++) if(T[i].state!=ST_DONE) alldone=0; if(alldone) return; if(!sched_quiet){ extern void sched_deadlock_hook(void); sched_dump("DEADLOCK"); sched_deadlock_hook(); } fflush(stderr); _exit(42);} 
   sched_hash=(sched_hash^(uint64_t)(nxt+1))*1099511628211ull; if(nxt!=me){ switches++; cur=nxt; unpark(nxt); if(T[me].state!=ST_DONE) park(me); } }
 void sched_point(void){ if(!active||me<0) return; steps++; vclock_ns+=50; if(steps>step_budget){ sched_dump("STEP BUDGET"); _exit(43);} handoff(); }
 void sched_init(int nthreads,uint64_t seed){ NT=nthreads; steps=0; switches=0; sched_hash=1469598103934665603ull; me=-1; rng=seed*0x9E3779B97F4A7C15ull+1; memset(T,0,sizeof T); for(int i=0;i<NT;i++) T[i].state=ST_RUN; const char*e=getenv("SCHED"); if(e) sscanf(e,"%d,%d",&switch_ppm,&fire_ppm); active=1; cur=0; }
@@ -48,7 +49,7 @@ long __wrap_syscall(long n,long a,long b,long c,long d,long e,long f){
   if(op==FUTEX_WAIT||op==FUTEX_WAIT_BITSET){ sched_point(); if(__atomic_load_n(addr,__ATOMIC_RELAXED)!=(int)c){ errno=EAGAIN; return -1; }
      const struct timespec*ts=(const struct timespec*)d; T[me].waddr=addr; T[me].timed=0; T[me].woken=0; T[me].timedout=0;
      if(ts){ int64_t dl=(int64_t)ts->tv_sec*1000000000ll+ts->tv_nsec; if(ts->tv_sec<0){ errno=EINVAL; return -1;} if(dl<=vclock_ns){ errno=ETIMEDOUT; return -1;} T[me].timed=1; T[me].deadline_ns=dl; }
-     T[me].state=ST_BLOCKED; handoff(); /* resumes when woken or timed out */ T[me].waddr=NULL; if(T[me].timedout){ errno=ETIMEDOUT; return -1;} return 0; }
+     if(sched_trace) fprintf(stderr,"T%d FUTEX_WAIT blocks timed=%d\n",me,T[me].timed); T[me].state=ST_BLOCKED; handoff(); if(sched_trace) fprintf(stderr,"T%d FUTEX_WAIT resumes timedout=%d\n",me,T[me].timedout); /* resumes when woken or timed out */ T[me].waddr=NULL; if(T[me].timedout){ errno=ETIMEDOUT; return -1;} return 0; }
   if(op==FUTEX_WAKE){ sched_point(); int cnt=0; for(int i=0;i<NT&&cnt<(int)c;i++) if(T[i].state==ST_BLOCKED&&T[i].waddr==addr){ T[i].state=ST_RUN; T[i].woken=1; T[i].timed=0; cnt++; } return cnt; }
   return __real_syscall(n,a,b,c,d,e,f); }
 /* virtual clock */
@@ -56,4 +57,5 @@ long __wrap_syscall(long n,long a,long b,long c,long d,long e,long f){
 nsync_time __wrap_nsync_time_now(void){ if(!active||me<0){ struct timespec ts; clock_gettime(CLOCK_REALTIME,&ts); return ts;} nsync_time t; t.tv_sec=vclock_ns/1000000000ll; t.tv_nsec=vclock_ns%1000000000ll; return t; }
 void __real_nsync_yield_(void);
 void __wrap_nsync_yield_(void){ if(!active||me<0){ __real_nsync_yield_(); return;} /* force a switch if possible */ int save=switch_ppm; switch_ppm=1000000; sched_point(); switch_ppm=save; }
-void nsync_verif_step_(const char*f,int l){ sched_point(); }
+
+void nsync_verif_step_(const char*f,int l){ sched_point(); if(sched_trace){ const char*b=strrchr(f,'/'); fprintf(stderr,"T%d %s:%d word=%x\n",me,b?b+1:f,l,sched_trace_word?*sched_trace_word:0);} }
